@@ -75,6 +75,15 @@ add("C12", "proptest-sharded+hooks",
     "Generated tagged corpora with repeated, ambiguous tokens and tag dictionaries; mirror-decoded candidate lists, vector sizes, predictions on corpus and fresh sentences and every stored candidate score are compared with independent references; the feature universe of each recorded classifier must equal the documented tag features of its training occurrences.",
     "Needs cargo feature verif-hooks for the score clause; tokens present untagged in the corpus AND in the dictionary are left unspecified.")
 
+add("C19", "proptest-sharded+real-CLI",
+    "property-based testing: metamorphic score-delta relation for replace_dictionary and a dump/replace round trip through the real manipulate_model binary",
+    "Generated models x replacement dictionaries x texts for the library relation (score delta == RefDict(new) - RefDict(old), nothing else changes); generated CSV-hostile dictionaries through the real tool: dump -> replace with untouched CSV -> byte-identical model; wrong weight counts rejected.",
+    "The tool is rebuilt from /repo into /verif/target/repo-bins by the check script; csv and zstd crates are part of the tool under test.")
+add("C20", "proptest-sharded+real-CLI",
+    "property-based testing: reference output assembled from library calls vs the real predict/evaluate binaries over generated models, input streams and flag sets; metamorphic mode equivalence",
+    "Generated models (.zst) x input streams (empty lines, NUL, delimiters, half-width characters) x all 16 flag subsets x wsconst lists for predict; generated tokenized references x metrics x flags for evaluate; stdout compared with the library pipeline, exit status and panics checked.",
+    "Under-specified spots are accepted in all reasonable variants (see evidence assumptions); lines ending in CR excluded by construction.")
+
 PLANNED = {
 }
 
